@@ -282,7 +282,12 @@ class Sim:
             for r in reqs:
                 scopes = r["scope"].split()
                 removed = []
+                r["removed"] = removed
                 item = (r["obj"], r["state"])
+                # the documented unset policy: only "f" on a present state removes anything
+                mode = r["mode"] or "fi"
+                if mode[0:1] != "f":
+                    continue
                 if "own" in scopes and self.world.has(wid, item):
                     self.world.discard(wid, item)
                     removed.append(wid)
@@ -293,7 +298,6 @@ class Sim:
                         if self.world.has(store, item):
                             self.world.discard(store, item)
                             removed.append(loc)
-                r["removed"] = removed
         elif action == "get":
             for r in reqs:
                 src = self.fetch(wid, r["obj"], r["state"], r["locations"], r["scope"], params)
